@@ -21,7 +21,12 @@ def units_for(prop):
         if re.search(r'props=[A-Z0-9,]*\b%s\b' % prop, t) or re.search(r'//\s*id:[^\n]*\[[^\]]*\b%s\b[^\]]*\]' % prop, t) \
                 or re.search(r'//\s*vp:lemma-props[^\n]*\b%s\b' % prop, t):
             out.append(os.path.basename(p)[:-3])
-    return out
+    # a unit that textually includes all of another unit's code subsumes it: `//@@ subsumes a b c`
+    sub = set()
+    for u in out:
+        for m in re.finditer(r'//@@ subsumes ([a-z_ ]+)', open(os.path.join(VERIF, 'units', u + '.rs')).read()):
+            sub |= set(m.group(1).split())
+    return [u for u in out if u not in sub]
 
 
 def load_json(path, default):
